@@ -39,6 +39,10 @@ def run(ctx):
             ctx.violation('operation crashed with a non-YastnError exception: %s' % r['detail'][:300], dict(kind=r['kind'], seed=r['seed'], detail=r['detail']))
         if r['status'] == 'mismatch' and (r['detail'].startswith('charge') or 'not consistent' in r['detail']):
             ctx.violation('%s case seed %d: %s' % (r['kind'], r['seed'], r['detail']), dict(kind=r['kind'], seed=r['seed'], opts=r['opts'], detail=r['detail'], describe=r['describe']))
+        if r.get('history'):
+            ctx.violation('%s case seed %d: a produced tensor carries a fusion history that does not support its sectors: %s' % (r['kind'], r['seed'], r['history']),
+                          dict(kind=r['kind'], seed=r['seed'], opts=r['opts'], detail=r['history'], describe=r['describe']))
+        ctx.count('history-checked', r.get('history_checked', 0))
         if r['status'] != 'ok':
             continue
         if r.get('consistent') is False or r.get('inter_consistent') is False:
